@@ -327,6 +327,7 @@ let built_record rt typ fields content id =
 let run_writer t : string * string =
   let max = next_int t in let compress = next_int t = 1 in let ratio = next t in
   let info = next_int t = 1 in let flush = next_int t = 1 in
+  let dup = next_int t = 1 in
   let nrec = next_int t in
   let recs = List.init nrec (fun i ->
     let body = next_hex t in
@@ -340,7 +341,7 @@ let run_writer t : string * string =
     | "r" -> WRotate
     | _ -> let k = next_int t in WWrite (List.init k (fun _ -> nat_of_int (next_int t)))) in
   let conf = { c_max = z_of_int max; c_compress = compress; c_warcinfo = info; c_flush = flush } in
-  let name_of (k : nat) = bytes_of_str (Printf.sprintf "v-%04d.warc%s" (int_of_nat k + 1) (if compress then ".gz" else "")) in
+  let name_of (k : nat) = bytes_of_str (Printf.sprintf "v-%04d.warc%s" (if dup then 1 else int_of_nat k + 1) (if compress then ".gz" else "")) in
   let scale (z : z) = z_of_tok (ask ("scale " ^ ratio ^ " " ^ tok_of_z z)) in
   let zsize (b : n list) = z_of_tok (ask ("gzsize " ^ hex b)) in
   let info_rec (name : n list) =
